@@ -484,7 +484,7 @@ class ConditionalGaussianPDF:
 
         .. math::
 
-            I_{Y,X} = H_{Y,X} - H_X - H_Y
+            I_{Y,X} = H_X + H_Y - H_{Y,X}
 
         Args:
             p_x: Marginal over conditional variable.
@@ -494,7 +494,7 @@ class ConditionalGaussianPDF:
         """
         cond_entropy = self.conditional_entropy(p_x, **kwargs)
         p_y = self.affine_marginal_transformation(p_x, **kwargs)
-        mutual_info = cond_entropy - p_y.entropy()
+        mutual_info = p_y.entropy() - cond_entropy
         return mutual_info
 
     def update_Sigma(self, Sigma_new: Float[Array, "R Dy Dy"]):
@@ -1282,7 +1282,7 @@ class ConditionalIdentityGaussianPDF(ConditionalGaussianPDF):
 
         .. math::
 
-            I_{Y,X} = H_{Y,X} - H_X - H_Y
+            I_{Y,X} = H_X + H_Y - H_{Y,X}
 
         Args:
             p_x: Marginal over conditional variable.
@@ -1292,7 +1292,7 @@ class ConditionalIdentityGaussianPDF(ConditionalGaussianPDF):
         """
         cond_entropy = self.conditional_entropy(p_x, **kwargs)
         p_y = self.affine_marginal_transformation(p_x, **kwargs)
-        mutual_info = cond_entropy - p_y.entropy()
+        mutual_info = p_y.entropy() - cond_entropy
         return mutual_info
 
     def update_Sigma(self, Sigma_new: Float[Array, "R Dy Dy"]):
